@@ -25,6 +25,7 @@ struct Th {
     int state{ST_NONE};
     int prio{0};
     uint64_t edges{0};
+    const void* blocked_on{nullptr};   // lock this thread found busy; cleared when that lock is unlocked
 };
 
 Th g_th[MAX_THREADS];
@@ -92,6 +93,9 @@ void release(int id) {
 }
 
 bool runnable(int i) {
+    if (g_th[i].blocked_on != nullptr) {
+        return false;
+    }
     if (g_th[i].state == ST_RUNNABLE) {
         return true;
     }
@@ -188,6 +192,17 @@ int decide(int me, int kind) {
         for (int i = 0; i < g_cfg.nthreads; ++i) {
             if (i != me && runnable(i)) {
                 cand[n++] = i;
+            }
+        }
+        if (n == 0) {
+            // everybody else waits for a lock as well: wake them all (one of them may find its lock free by now)
+            for (int i = 0; i < g_cfg.nthreads; ++i) {
+                if (i != me && g_th[i].blocked_on != nullptr) {
+                    g_th[i].blocked_on = nullptr;
+                    if (runnable(i)) {
+                        cand[n++] = i;
+                    }
+                }
             }
         }
         return n ? cand[rnd() % uint64_t(n)] : me;
@@ -336,6 +351,7 @@ void begin(const Config& cfg) {
         g_th[i].state = (i < cfg.nthreads) ? ST_WAITSTART : ST_NONE;
         g_th[i].edges = 0;
         g_th[i].prio = 0;
+        g_th[i].blocked_on = nullptr;
     }
     // PCT: random distinct priorities, d change points
     if (cfg.policy == POL_PCT) {
@@ -516,13 +532,30 @@ int __wrap_pthread_mutex_lock(pthread_mutex_t* m) {
             return r;
         }
         ++sim::g_stats.lock_blocked;
-        if (++sim::g_forced_streak > 2000000) {
+        if (++sim::g_forced_streak > 200000) {
             sim::g_stats.deadlock = 1;
             sim::say("SIM-DEADLOCK all simulated threads blocked on locks\n");
             _exit(79);
         }
+        // not runnable until somebody unlocks this mutex (or everybody is blocked)
+        sim::g_th[sim::tl_id].blocked_on = m;
         sim::yield_here(sim::K_FORCED);
+        sim::g_th[sim::tl_id].blocked_on = nullptr;
     }
+}
+
+int __real_pthread_mutex_unlock(pthread_mutex_t* m);
+
+int __wrap_pthread_mutex_unlock(pthread_mutex_t* m) {
+    const int r = __real_pthread_mutex_unlock(m);
+    if (sim::tl_id >= 0) {
+        for (int i = 0; i < sim::g_cfg.nthreads; ++i) {
+            if (sim::g_th[i].blocked_on == m) {
+                sim::g_th[i].blocked_on = nullptr;
+            }
+        }
+    }
+    return r;
 }
 
 }   // extern "C"
